@@ -31,6 +31,8 @@ pub struct Dep {
 
 #[derive(Clone, Debug)]
 pub struct ExecRec {
+  /// Tasks for which a require was issued (the reserved edge exists from that moment).
+  pub req_issued: Vec<Tid>,
   pub n: u32,
   pub completed: bool,
   pub out: Option<Out>,
@@ -64,6 +66,14 @@ pub fn classify(p: &PanicInfo) -> AbortKind {
   AbortKind::Other
 }
 
+pub struct Analysis {
+  pub executed: BTreeSet<Tid>,
+  pub validated_ok: BTreeSet<Tid>,
+  /// The innermost context call that had not returned when the session ended (abort site).
+  pub open_op: Option<(Tid, OpK, Target)>,
+  pub exec_stack: Vec<Tid>,
+}
+
 #[derive(Clone, Debug)]
 enum SessionKind { TopDown(Vec<Tid>), BottomUp { report: Vec<usize>, complete: bool, then_require: Vec<Tid> } }
 
@@ -90,6 +100,9 @@ pub struct Runner<'a> {
   last_bu_complete: bool,
   session_no: usize,
   aborted_before: bool,
+  aborted_earlier: bool,
+  /// An abort happened and no returning session has required all known tasks since.
+  abort_dirty: bool,
   pub vs: Vec<Violation>,
   pub stats: Stats,
   pub trace: u64,
@@ -134,7 +147,7 @@ impl<'a> Runner<'a> {
     let nres = prog.resources.len();
     Runner {
       scn, prog, prop, pie, shadow: vec![None; nres], known: BTreeSet::new(), ledger: vec![None; n], ever_completed: vec![false; n], stamps: vec![None],
-      changed: BTreeSet::new(), all_consistent: true, last_td: None, last_bu_complete: false, session_no: 0, aborted_before: false,
+      changed: BTreeSet::new(), all_consistent: true, last_td: None, last_bu_complete: false, session_no: 0, aborted_before: false, aborted_earlier: false, abort_dirty: false,
       vs: vec![], stats: Stats::default(), trace: 0xcbf2_9ce4_8422_2325, harness_error: None, reuse_and_exec: false, nontrivial: false, trk_seen: 0,
     }
   }
@@ -169,14 +182,12 @@ impl<'a> Runner<'a> {
         Step::Touch { res } => { if *res < self.shadow.len() { let v = self.shadow[*res]; self.external_set(*res, v); self.stats.hit("ext_touch"); } }
         Step::TopDown { roots } => {
           let roots: Vec<Tid> = roots.iter().copied().filter(|t| *t < self.prog.tasks.len()).collect();
-          self.session(i, SessionKind::TopDown(roots.clone()), &fault, false);
-          self.last_td = Some(roots);
+          let returned = self.session(i, SessionKind::TopDown(roots.clone()), &fault, false);
+          self.last_td = if returned { Some(roots) } else { None };
         }
         Step::Repeat => {
           if let Some(roots) = self.last_td.clone() {
-            if !self.aborted_before {
-              self.session(i, SessionKind::TopDown(roots), &StepFault::default(), true);
-            }
+            self.session(i, SessionKind::TopDown(roots), &StepFault::default(), true);
           }
         }
         Step::ProbeAll => {
@@ -186,8 +197,8 @@ impl<'a> Runner<'a> {
         }
         Step::BottomUp { report, then_require } => {
           let (rep, complete) = match report {
-            None => (self.changed.iter().copied().collect::<Vec<_>>(), true),
-            Some(r) => { let r: Vec<usize> = r.iter().copied().filter(|x| *x < self.shadow.len()).collect(); let complete = self.changed.iter().all(|c| r.contains(c)); (r, complete) }
+            None => (self.changed.iter().copied().collect::<Vec<_>>(), !self.abort_dirty),
+            Some(r) => { let r: Vec<usize> = r.iter().copied().filter(|x| *x < self.shadow.len()).collect(); let complete = !self.abort_dirty && self.changed.iter().all(|c| r.contains(c)); (r, complete) }
           };
           let then_require: Vec<Tid> = then_require.iter().copied().filter(|t| *t < self.prog.tasks.len()).collect();
           self.session(i, SessionKind::BottomUp { report: rep, complete, then_require }, &fault, false);
@@ -270,10 +281,11 @@ impl<'a> Runner<'a> {
     prog.resources.iter().map(|k| res_get(&mut self.pie, *k).val).collect()
   }
 
-  fn session(&mut self, step: usize, kind: SessionKind, fault: &StepFault, is_repeat: bool) {
+  fn session(&mut self, step: usize, kind: SessionKind, fault: &StepFault, is_repeat: bool) -> bool {
     let prog = self.prog.clone();
     let before = self.shadow.clone();
     let fault_free = fault.is_none();
+    let dirty_at_start = self.abort_dirty;
     let res = self.execute_session(&kind, fault);
     self.session_no += 1;
     let slice: Vec<Ev> = with_sim(|s| s.log[res.start..].to_vec());
@@ -289,7 +301,14 @@ impl<'a> Runner<'a> {
 
     // Abort handling.
     if let Some(abort) = &res.abort {
+      self.aborted_earlier = self.aborted_before;
       self.aborted_before = true;
+      self.abort_dirty = true;
+      // The world must hold exactly the writes that the task-side log says happened.
+      let mut expect = before.clone();
+      for e in slice.iter() { if let Ev::ResSet { res, new, .. } = e { if let Some(i) = prog.res_index(*res) { expect[i] = *new; } } }
+      let real = self.real_world();
+      if real != expect { self.viol(&["C19"], "abort-world", step, format!("after the aborted build the resources hold {:?}, the writes that happened give {:?}", real, expect)); }
       self.stats.hit(&format!("abort_{:?}", abort.kind));
       fnv(&mut self.trace, 0xAB0 + abort.kind.clone() as u64);
       match abort.kind {
@@ -299,14 +318,11 @@ impl<'a> Runner<'a> {
           self.viol(&["C07"], "unbounded-recursion", step, format!("execution depth / count guard fired: {}", abort.info.short()));
         }
         AbortKind::Internal => {
-          let props: &[&str] = if self.aborted_earlier_than(step) { &["C19"] } else { &["C19", "C20"] };
-          let _ = props;
-          self.viol(&["C19", "C20", "C01"], "internal-panic", step, format!("build failed with an internal error: {}", abort.info.short()));
+          let props: &[&str] = if self.aborted_earlier { &["C19"] } else { &["C20"] };
+          self.viol(props, "internal-panic", step, format!("build failed with an internal error: {}", abort.info.short()));
         }
         AbortKind::Cycle | AbortKind::Hidden | AbortKind::Overlap => {
-          if prog.class == Class::W {
-            self.viol(&["C20"], "spurious-abort-class-w", step, format!("well-formed program aborted with a diagnostic: {}", abort.info.short()));
-          }
+          self.judge_diagnostic_abort(step, abort, &analysis);
         }
         AbortKind::Other => { self.harness_error = Some(format!("unexpected panic outside the repository: {}", abort.info.short())); }
       }
@@ -314,13 +330,12 @@ impl<'a> Runner<'a> {
       self.shadow = self.real_world();
       self.all_consistent = false;
       self.last_bu_complete = false;
-      return;
+      return false;
     }
 
-    if !self.vs.is_empty() { return; }
+    if !self.vs.is_empty() { return true; }
 
     // The session returned: from-scratch equality.
-    let _ = analysis;
     let roots: Vec<Tid> = res.roots_out.iter().map(|(t, _)| *t).collect();
     let mut clean = Clean::new(&prog, before.clone());
     let (check_world, clean_roots): (bool, Vec<Tid>) = match &kind {
@@ -336,21 +351,24 @@ impl<'a> Runner<'a> {
     for t in clean_roots.iter() { let o = clean.require(*t); expected.insert(*t, o); }
     if prog.class == Class::W && !clean.ill.is_empty() {
       self.harness_error = Some(format!("class W program is ill-formed in a visited state: {:?}", clean.ill));
-      return;
+      return true;
     }
     for t in clean.order.iter() { self.known.insert(*t); }
     let executed: Vec<Tid> = slice.iter().filter_map(|e| if let Ev::ExecStart { t, .. } = e { Some(*t) } else { None }).collect();
     for t in executed.iter() { self.known.insert(*t); }
     if !executed.is_empty() && executed.len() < clean.order.len() { self.reuse_and_exec = true; }
 
-    let tainted = !fault_free && (fault.read_err_at.is_some() || fault.write_err_at.is_some());
+    // Bottom-up builds after an abort are claimed by no property (C03 does not quantify over aborts, C19 speaks about
+    // later top-down builds) until a returning session has required all known tasks again.
+    let unclaimed_bu = matches!(kind, SessionKind::BottomUp { .. }) && dirty_at_start;
+    let tainted = unclaimed_bu || (!fault_free && (fault.read_err_at.is_some() || fault.write_err_at.is_some()));
     if clean.ill.is_empty() && !tainted {
       for (t, out) in res.roots_out.iter() {
         if expected.get(t) != Some(out) {
           let props: &[&str] = match &kind { SessionKind::TopDown(_) => &["C01"], SessionKind::BottomUp { .. } => &["C01", "C03"] };
-          let props: Vec<&str> = if self.aborted_before { let mut p = props.to_vec(); p.push("C19"); p } else { props.to_vec() };
+          let props: Vec<&str> = if self.aborted_before && matches!(kind, SessionKind::TopDown(_)) { let mut p = props.to_vec(); p.push("C19"); p } else { props.to_vec() };
           self.viol(&props, "O1-output", step, format!("require of task {t} returned {:?} but a from-scratch build of the current state returns {:?}", out, expected.get(t)));
-          return;
+          return true;
         }
       }
       if check_world {
@@ -367,9 +385,9 @@ impl<'a> Runner<'a> {
           };
           if !equal {
             let props: &[&str] = match &kind { SessionKind::TopDown(_) => &["C01"], SessionKind::BottomUp { .. } => &["C03"] };
-            let props: Vec<&str> = if self.aborted_before { let mut p = props.to_vec(); p.push("C19"); p } else { props.to_vec() };
+            let props: Vec<&str> = if self.aborted_before && matches!(kind, SessionKind::TopDown(_)) { let mut p = props.to_vec(); p.push("C19"); p } else { props.to_vec() };
             self.viol(&props, "O1-world", step, format!("resource {r} ({:?}) holds {:?} after the build; from-scratch: {:?} (before: {:?}, clean writer: {:?})", prog.resources[r], real[r], clean.world[r], before[r], written));
-            return;
+            return true;
           }
         }
       }
@@ -379,7 +397,7 @@ impl<'a> Runner<'a> {
         for t in executed.iter() {
           if !cs.contains(t) {
             self.viol(&["C02"], "O2d-unnecessary-execution", step, format!("task {t} was executed although a from-scratch build of the current state does not execute it (executed {:?}, clean {:?})", executed, clean.order));
-            return;
+            return true;
           }
         }
       }
@@ -391,7 +409,7 @@ impl<'a> Runner<'a> {
     match &kind {
       SessionKind::TopDown(_) => {
         let all: bool = self.known.iter().all(|t| roots.contains(t));
-        if all { self.changed.clear(); self.all_consistent = true; }
+        if all { self.changed.clear(); self.all_consistent = true; self.abort_dirty = false; }
         else {
           // Resources written by tasks in a partial top-down session count as changed for later bottom-up reports.
           for e in slice.iter() { if let Ev::ResSet { res, old, new } = e { if old != new { if let Some(i) = prog.res_index(*res) { self.changed.insert(i); } } } }
@@ -402,12 +420,98 @@ impl<'a> Runner<'a> {
         if *complete { self.changed.clear(); self.all_consistent = true; self.last_bu_complete = true; }
       }
     }
+    true
   }
 
-  fn aborted_earlier_than(&self, _step: usize) -> bool { self.aborted_before }
+
+  /// A build aborted with a cycle / hidden-dependency / overlapping-write diagnostic: decide whether the violation
+  /// exists in the current state (fine), is explained by recorded dependencies of tasks that were not yet validated
+  /// in this session (stale-edge signature: a listed known finding or a violation), or is unexplained (violation).
+  fn judge_diagnostic_abort(&mut self, step: usize, abort: &Abort, an: &Analysis) {
+    let prog = self.prog.clone();
+    let world = self.real_world();
+    let mut clean = Clean::new(&prog, world);
+    let mut all: Vec<Tid> = self.known.iter().copied().collect();
+    for t in an.exec_stack.iter() { if !all.contains(t) { all.push(*t); } }
+    for t in all.iter() { clean.require(*t); }
+    let exists_now = clean.ill.iter().any(|i| match abort.kind { AbortKind::Cycle => i.is_cycle(), AbortKind::Hidden => i.is_hidden(), AbortKind::Overlap => i.is_overlap(), _ => false });
+    if exists_now { self.stats.hit("abort_for_existing_violation"); return; }
+    let props: Vec<&str> = if self.aborted_earlier { vec!["C19", "C20"] } else { vec!["C20"] };
+    let Some((t, op, target)) = an.open_op else {
+      self.viol(&props, "abort-without-site", step, format!("diagnostic abort outside any context call: {}", abort.info.short()));
+      return;
+    };
+    let none_old: Vec<Option<ExecRec>> = vec![None; prog.tasks.len()];
+    let fresh = |x: Tid| an.executed.contains(&x) || an.validated_ok.contains(&x);
+    let any_aborted_record = (0..prog.tasks.len()).any(|x| !an.exec_stack.contains(&x) && self.ledger[x].as_ref().map(|e| !e.completed).unwrap_or(false));
+    let suffix = if any_aborted_record { "+abort" } else { "" };
+    let reads = |x: Tid, r: ResKey| self.ledger[x].as_ref().map(|e| e.deps.iter().any(|d| d.kind == DepKind::Read && d.target == Target::Res(r))).unwrap_or(false);
+    let writes = |x: Tid, r: ResKey| self.ledger[x].as_ref().map(|e| e.deps.iter().any(|d| d.kind == DepKind::Write && d.target == Target::Res(r))).unwrap_or(false);
+    let ntasks = prog.tasks.len();
+    let mut cause: Option<String> = None;
+    match (&abort.kind, op, target) {
+      (AbortKind::Overlap, OpK::Write | OpK::WriteVia, Target::Res(r)) => {
+        if let Some(w) = (0..ntasks).find(|x| *x != t && writes(*x, r)) {
+          if !fresh(w) { cause = Some("overlap:stale-writer".into()); }
+        }
+      }
+      (AbortKind::Hidden, OpK::Write | OpK::WriteVia, Target::Res(r)) => {
+        let ri = prog.res_index(r);
+        for x in (0..ntasks).filter(|x| *x != t && reads(*x, r)) {
+          if !ledger_path(&self.ledger, &none_old, x, t) {
+            if !fresh(x) {
+              let reads_now = ri.map(|ri| clean.readers.get(&ri).map(|v| v.contains(&x)).unwrap_or(false)).unwrap_or(false);
+              cause = Some(if reads_now { "hidden:stale-path".into() } else { "hidden:stale-reader".into() });
+            }
+            break;
+          }
+        }
+      }
+      (AbortKind::Hidden, OpK::Read, Target::Res(r)) => {
+        if let Some(w) = (0..ntasks).find(|x| *x != t && writes(*x, r)) {
+          if !ledger_path(&self.ledger, &none_old, t, w) {
+            if !fresh(w) { cause = Some("hidden:stale-writer".into()); }
+            else {
+              // The writer is current; the reader's path to it runs through tasks whose records are stale or partial.
+              let ri = prog.res_index(r);
+              let writes_now = ri.map(|ri| clean.writer_of.get(&ri) == Some(&w)).unwrap_or(false);
+              if writes_now && clean.path(t, w) && (0..ntasks).any(|x| !fresh(x) && !an.exec_stack.contains(&x)) { cause = Some("hidden:stale-path".into()); }
+            }
+          }
+        }
+      }
+      (AbortKind::Cycle, OpK::Require, Target::Task(u)) => {
+        // Explained by the records iff u reaches t through recorded require edges; stale iff an edge owner is not fresh.
+        if ledger_path(&self.ledger, &none_old, u, t) || u == t {
+          let mut stale_owner = false;
+          // Search for a path and look at its owners.
+          let mut seen = BTreeSet::new();
+          let mut stack = vec![u];
+          while let Some(x) = stack.pop() {
+            if !seen.insert(x) { continue; }
+            if !fresh(x) && !an.exec_stack.contains(&x) { stale_owner = true; }
+            if let Some(e) = self.ledger[x].as_ref() { for y in e.req_issued.iter() { stack.push(*y); } }
+          }
+          if stale_owner { cause = Some("cycle:stale-require".into()); }
+        }
+      }
+      _ => {}
+    }
+    match cause {
+      Some(c) => {
+        let sig = format!("{c}{suffix}");
+        self.stats.hit(&format!("stale_edge_abort:{sig}"));
+        let v = Violation::new(&props, "spurious-abort", step, format!("build aborted although the current state contains no such violation ({sig}): {}", abort.info.short())).with_sig(&sig);
+        if self.vs.len() < 16 { self.vs.push(v); }
+      }
+      None => {
+        self.viol(&props, "unexplained-abort", step, format!("build aborted with a diagnostic that neither the current behaviour of the tasks nor their recorded dependencies explain: {}", abort.info.short()));
+      }
+    }
+  }
 
   /// Walks the log slice of one session: updates the ledger and evaluates the log-based oracles.
-  fn analyse(&mut self, step: usize, kind: &SessionKind, slice: &[Ev], res: &SessionResult, is_repeat: bool) {
+  fn analyse(&mut self, step: usize, kind: &SessionKind, slice: &[Ev], res: &SessionResult, is_repeat: bool) -> Analysis {
     let prog = self.prog.clone();
     let ntasks = prog.tasks.len();
     let aborted = res.abort.is_some();
@@ -419,7 +523,7 @@ impl<'a> Runner<'a> {
     let mut old: Vec<Option<ExecRec>> = vec![None; ntasks];
     // Top-down validation pass per task: (next index, ended inconsistent, complete)
     #[derive(Clone, Default)]
-    struct Pass { next: usize, ended_incons: bool, started: bool, by_error: bool }
+    struct Pass { next: usize, ended_incons: bool, started: bool, by_error: bool, checked: BTreeSet<usize> }
     let mut pass: Vec<Pass> = vec![Pass::default(); ntasks];
     let mut validated_ok: BTreeSet<Tid> = BTreeSet::new();
     let mut bu_reused: BTreeSet<Tid> = BTreeSet::new();
@@ -433,12 +537,14 @@ impl<'a> Runner<'a> {
     let mut trace = self.trace;
     let mut errors_seen: Vec<u32> = vec![];
     let mut cutoff = false;
+    let mut order_candidates: Vec<(Tid, Tid)> = vec![];
 
     for (i, ev) in slice.iter().enumerate() {
       match ev {
         Ev::BuStart => { in_bu_phase = true; }
         Ev::BuEnd => {
           in_bu_phase = false;
+          order_candidates.clear();
           if let Some((t, by_err)) = pending.iter().next() {
             let props: &[&str] = if *by_err { &["C18", "C03"] } else { &["C03", "C09"] };
             v(props, "bu-scheduled-not-executed", format!("a dependency of task {t} was found inconsistent during the bottom-up build but the task was not executed before the build ended"));
@@ -463,10 +569,7 @@ impl<'a> Runner<'a> {
               }
               // Order: no scheduled task that t (transitively) requires may still be waiting.
               for (q, _) in pending.iter() {
-                if q != t && ledger_path(&self.ledger, &old, *t, *q) {
-                  v(&["C04"], "bu-order", format!("task {t} was executed while task {q}, which it (transitively) requires, was still scheduled"));
-                  break;
-                }
+                if q != t && ledger_path(&self.ledger, &old, *t, *q) { order_candidates.push((*t, *q)); }
               }
             } else {
               let p = &pass[*t];
@@ -477,16 +580,22 @@ impl<'a> Runner<'a> {
             }
           }
           if *bottom_up != in_bu_phase && false { /* context kind is informational */ }
+          // A task that executes now confirms earlier order candidates in which it was the one still waiting.
+          if in_bu_phase {
+            if let Some((a, q)) = order_candidates.iter().find(|(_, q)| q == t).copied() {
+              v(&["C04"], "bu-order", format!("task {a} was executed while task {q}, which it (transitively) requires, was still scheduled and was executed only afterwards"));
+            }
+          }
           pending.remove(t);
           pass[*t] = Pass::default();
           old[*t] = self.ledger[*t].take();
-          self.ledger[*t] = Some(ExecRec { n: *n, completed: false, out: None, deps: vec![], session: self.session_no });
+          self.ledger[*t] = Some(ExecRec { req_issued: vec![], n: *n, completed: false, out: None, deps: vec![], session: self.session_no });
           executed.insert(*t);
           exec_stack.push(*t);
           if is_repeat {
             v(&["C02"], "O2c-repeat-executed", format!("requiring again with nothing changed executed task {t}"));
           }
-          if probe_after_bu {
+          if probe_after_bu && prev_completed {
             v(&["C03"], "O3-probe-executed", format!("after a completely reported bottom-up build, requiring known task(s) executed task {t}"));
           }
         }
@@ -501,6 +610,7 @@ impl<'a> Runner<'a> {
         Ev::OpStart { t, op, target, .. } => {
           if let (OpK::Require, Target::Task(u)) = (op, target) {
             self.known.insert(*u);
+            if let Some(e) = self.ledger[*t].as_mut() { if !e.req_issued.contains(u) { e.req_issued.push(*u); } }
             if exec_stack.contains(u) {
               // A require of a task on the execution stack must not return.
               op_stack.push((*t, *op, *target, 1));
@@ -535,7 +645,7 @@ impl<'a> Runner<'a> {
             } else if !executed.contains(&u) && !validated_ok.contains(&u) && !bu_reused.contains(&u) && !aborted {
               let nd = self.ledger[u].as_ref().map(|e| e.deps.len()).unwrap_or(0);
               let p = &pass[u];
-              if !(p.started && !p.ended_incons && p.next >= nd) && nd > 0 {
+              if !(p.started && !p.ended_incons && p.checked.len() >= nd) && nd > 0 {
                 v(&["C01", "C09"], "reuse-without-validation", format!("task {t} got the cached output of task {u}, which was neither executed nor completely validated in this session ({} of {nd} dependencies checked)", p.next));
               } else { validated_ok.insert(u); }
             }
@@ -551,7 +661,7 @@ impl<'a> Runner<'a> {
           if !executed.contains(t) && !validated_ok.contains(t) && !bu_reused.contains(t) {
             let nd = self.ledger[*t].as_ref().map(|e| e.deps.len()).unwrap_or(0);
             let p = &pass[*t];
-            if !(p.started && !p.ended_incons && p.next >= nd) && nd > 0 {
+            if !(p.started && !p.ended_incons && p.checked.len() >= nd) && nd > 0 {
               v(&["C01", "C09"], "reuse-without-validation", format!("Session::require got the cached output of task {t}, which was neither executed nor completely validated in this session ({} of {nd} dependencies checked)", p.next));
             } else { validated_ok.insert(*t); }
           }
@@ -648,13 +758,18 @@ impl<'a> Runner<'a> {
             let p = &mut pass[t];
             if p.started && p.ended_incons {
               v(&["C02"], "check-after-inconsistent", format!("validation of task {t} continued with dependency {idx} after an earlier dependency had been reported inconsistent"));
-            } else if idx == 0 {
-              if p.started && p.next < nd { v(&["C02", "C09"], "validation-incomplete", format!("validation of task {t} restarted after only {} of {nd} dependencies", p.next)); }
-              *p = Pass { next: 1, ended_incons: incons, started: true, by_error: by_err };
-            } else if !p.started || idx != p.next {
-              v(&["C02", "C16"], "validation-order", format!("dependencies of task {t} were validated out of creation order: dependency {idx} checked when {} was next (of {nd})", if p.started { p.next } else { 0 }));
-              *p = Pass { next: idx + 1, ended_incons: incons, started: true, by_error: by_err };
+            } else if idx == 0 && !(p.started && p.next == 0) {
+              if p.started && p.checked.len() < nd { v(&["C01", "C09"], "validation-incomplete", format!("validation of task {t} restarted after only {} of {nd} dependencies", p.checked.len())); }
+              *p = Pass { next: 1, ended_incons: incons, started: true, by_error: by_err, checked: [0usize].into_iter().collect() };
             } else {
+              let expected_next = if p.started { p.next } else { 0 };
+              if idx < expected_next || p.checked.contains(&idx) {
+                v(&["C02", "C16"], "validation-order", format!("dependencies of task {t} were validated out of creation order: dependency {idx} checked after dependency {} (of {nd})", expected_next.saturating_sub(1)));
+              } else if idx > expected_next {
+                v(&["C01", "C09"], "validation-skipped", format!("validation of task {t} skipped dependencies {expected_next}..{idx} (of {nd})"));
+              }
+              p.started = true;
+              p.checked.insert(idx);
               p.next = idx + 1;
               p.ended_incons = incons;
               p.by_error = by_err;
@@ -677,8 +792,8 @@ impl<'a> Runner<'a> {
           if p.ended_incons {
             let props: &[&str] = if p.by_error { &["C18", "C09"] } else { &["C09", "C01"] };
             violations.push(Violation::new(props, "inconsistent-but-reused", step, format!("a dependency of task {t} was reported {} during its validation but the task was not re-executed", if p.by_error { "as a checker error" } else { "inconsistent" })));
-          } else if p.next < nd {
-            violations.push(Violation::new(&["C01", "C09"], "validation-incomplete", step, format!("task {t} was reused after only {} of its {nd} dependencies were validated", p.next)));
+          } else if p.checked.len() < nd {
+            violations.push(Violation::new(&["C01", "C09"], "validation-incomplete", step, format!("task {t} was reused after only {} of its {nd} dependencies were validated", p.checked.len())));
           }
         }
       }
@@ -701,6 +816,7 @@ impl<'a> Runner<'a> {
 
     // Tracker oracles.
     self.check_tracker(step, slice, aborted);
+    Analysis { executed, validated_ok, open_op: op_stack.last().map(|(t, op, target, _)| (*t, *op, *target)), exec_stack }
   }
 
   fn check_tracker(&mut self, step: usize, slice: &[Ev], aborted: bool) {
@@ -1004,11 +1120,9 @@ fn ledger_path(ledger: &[Option<ExecRec>], old: &[Option<ExecRec>], a: Tid, b: T
   while let Some(x) = stack.pop() {
     for src in [&ledger[x], &old[x]] {
       if let Some(e) = src {
-        for d in e.deps.iter() {
-          if let (DepKind::Require, Target::Task(u)) = (d.kind, d.target) {
-            if u == b { return true; }
-            if seen.insert(u) { stack.push(u); }
-          }
+        for u in e.req_issued.iter().copied() {
+          if u == b { return true; }
+          if seen.insert(u) { stack.push(u); }
         }
       }
     }
